@@ -18,7 +18,7 @@ META = {
     'technique': 'Lean 4 theorems (induction over configurations, expression trees and argument tuples) about a transcription of When/Matcher/Expr + differential run of generated configurations on 34 really patched corpus functions and When.Eval',
     'level': 'proof',
     'level_text': 'Full proof on the model: for every signature (fixed arity, variadic behind k >= 0 fixed parameters, methods), every well-formed configuration (optional default, then any number of When/In clauses over values, Any, nested In) and every argument tuple, invoke returns the result of the first registered condition whose expressions all hold, else the default, else panics "no suitable condition" when the function has results (returns normally when it has none); the receiver is ignored and the variadic tail is matched element by element.',
-    'level_note': 'Trusted: Lean kernel (propext, Classical.choice, Quot.sound), the hand transcription Model/When.lean (tied by the differential run on every check run; distribution in the evidence), the probe and its value domains. Abstracted: argument equality is a parameter (C18), result sequences/cursor only for single-result matchers (C05), types of values (only arities), reflect.MakeFunc/Call ABI (C01). The theorems describe the repaired matching code (fixes F6, F6b, F6c); on the unrepaired code the oracle reports the violations.',
+    'level_note': 'Trusted: Lean kernel (propext, Classical.choice, Quot.sound), the hand transcription Model/When.lean (tied by the differential run on every check run; distribution in the evidence), the probe and its value domains. Abstracted: argument equality is a parameter (C18), result sequences/cursor only for single-result matchers (C05), types of values (only arities), reflect.MakeFunc/Call ABI (C01). The theorems describe the repaired matching code (fixes/F6.diff incl. F6b, fixes/F6c.diff); on the unrepaired code the oracle reports the violations. One configuration shape is excluded by an explicit hypothesis (known finding C04-K1: a configuration starting with When() without arguments; full statement invoke_spec_full is refuted in Findings/C04K1.lean).',
 }
 
 # name -> (parameter kinds without receiver, variadic, method, results)
@@ -262,6 +262,33 @@ REGRESS = [  # past failures / the documented defect inputs, run first
 ]
 
 
+def exhaustive_lane():
+    """every single-condition When over {0,1,*} per position x every call over {0,1}, tails up to 2, with and without default"""
+    import itertools
+    lines = []
+    for name in ('f1', 'f2', 'f2b', 'v0', 'v1', 'v2', 'M1', 'M2', 'MV', 'MV1', 'VV'):
+        k, v, m, o = T[name]
+        arities = [len(k) - 1 + t for t in range(3)] if v else [len(k)]
+        calls = []
+        for n in arities:
+            for xs in itertools.product('01', repeat=n):
+                calls.append(('0' if m else '-', list(xs)))
+        for n in arities:
+            if n == 0:
+                continue
+            for sp in itertools.product('01*', repeat=n):
+                specs = [('*',) if c == '*' else ('v', c) for c in sp]
+                for dflt in (0, None):
+                    if dflt is None and v and n < len(k):
+                        continue        # a first When must cover every parameter (checkParams)
+                    clauses = (['ret 0'] if dflt is not None else []) + ['when ' + ','.join(sp), 'ret 1']
+                    text = f'c04 call {name} {sig_of(name)} | ' + ' ; '.join(clauses) + ' | ' + \
+                           ' ; '.join(f'call {r} {",".join(xs) if xs else "-"}' for r, xs in calls)
+                    lines.append((text, {'name': name, 'mode': 'call', 'view': {'dflt': dflt, 'conds': [(('when', specs), 1)]},
+                                         'calls': calls, 'nclauses': len(clauses)}))
+    return lines
+
+
 def finding_key(info, what):
     k, v, m, o = T[info['name']]
     view = info.get('view')
@@ -371,20 +398,61 @@ def execute(ops, tag='c04'):
     return impl, model, '', crashes
 
 
+def variants(op):
+    """smaller lines: a single call; one condition (clause + its ret) removed"""
+    head, cl, ca = [x.strip() for x in op.split('|')]
+    clauses = [c.strip() for c in cl.split(';') if c.strip()]
+    calls = [c.strip() for c in ca.split(';') if c.strip()]
+    out = []
+    if len(calls) > 1:
+        for c in calls:
+            out.append(f'{head} | {" ; ".join(clauses)} | {c}')
+    for i in range(len(clauses) - 1):
+        if clauses[i].split()[0] in ('when', 'in') and clauses[i + 1].startswith('ret ') and len(clauses) > 2:
+            rest = clauses[:i] + clauses[i + 2:]
+            out.append(f'{head} | {" ; ".join(rest)} | {" ; ".join(calls)}')
+    return out
+
+
+def shrink(op, key, binary):
+    """greedy delta debugging on the implementation only (the oracle decides), at most 12 rounds"""
+    for _ in range(12):
+        cands = variants(op)
+        if not cands:
+            break
+        path = os.path.join(C.BUILD, 'c04-shrink.ops')
+        open(path, 'w').write('\n'.join(cands) + '\n')
+        impl, _ = run_impl(binary, path, os.path.join(C.BUILD, 'c04-shrink.impl'), len(cands))
+        nxt = None
+        for c, obs in zip(cands, impl):
+            try:
+                why = oracle(parse_line(c), obs)
+            except Exception:
+                why = None
+            if why and why[1] == key:
+                nxt = c
+                break
+        if nxt is None:
+            break
+        op = nxt
+    return op
+
+
 def run(tier):
     out = C.Outcome('C04', tier)
     rng = C.Rng(C.seed()).fork('C04')
     proof = C.prove('C04', leanchecker=(tier == 'thorough'))
     g = Gen(rng)
-    lines = list(REGRESS)
-    per_target = 40 if tier == 'quick' else 600
+    lines = list(REGRESS) + exhaustive_lane()
+    nexh = len(lines) - len(REGRESS)
+    per_target = 40 if tier == 'quick' else 3000
     for name in NAMES:                      # every corpus target gets its share, then a random mix
         for _ in range(per_target):
             lines.append(g.line(name))
-    for _ in range(600 if tier == 'quick' else 12000):
+    for _ in range(600 if tier == 'quick' else 60000):
         lines.append(g.line())
     nwf = len(lines)
-    for _ in range(400 if tier == 'quick' else 6000):
+    for _ in range(400 if tier == 'quick' else 30000):
         lines.append(g.line(malformed=True))
     ops = [l for l, _ in lines]
     infos = [i for _, i in lines]
@@ -400,7 +468,8 @@ def run(tier):
         if key in seen:
             continue
         seen.add(key)
-        out.violation(f'{ops[i]}: {what}', {'kind': 'impl-oracle', 'ops': [ops[i]], 'observed': impl[i], 'why': what, 'finding': key,
+        small = shrink(ops[i], key, build_probe()) if impl[i] != 'crash' else ops[i]
+        out.violation(f'{small}: {what}', {'kind': 'impl-oracle', 'ops': [small], 'original_op': ops[i], 'observed': impl[i], 'why': what, 'finding': key,
                                            'n_lines_failing': len(bad), 'how': 'python3 check.py C04 --replay <this file>'}, key=key)
         if len(seen) >= 4:
             break
@@ -439,7 +508,7 @@ def run(tier):
         'traces_validated_against_impl': len(ops) - len(diffs),
         'rule': 'one evaluation = one call (through the patched function or When.Eval) under one generated configuration; one line = configuration + 8 calls; '
                 'non-trivial = distinct line on which at least one call returned a configured result',
-        'distribution': {'lines': len(ops), 'well-formed lane': nwf, 'malformed lane': len(ops) - nwf, 'corpus targets': len(NAMES),
+        'distribution': {'lines': len(ops), 'regress corpus': len(REGRESS), 'exhaustive small lane': nexh, 'well-formed lane': nwf, 'malformed lane': len(ops) - nwf, 'corpus targets': len(NAMES),
                          'modes': modes, 'signature shapes': shapes, 'generated': g.dist,
                          'outcomes on oracle-checked calls': stats, 'probe crashes': crashes},
         'samples': [{'op': ops[i], 'impl': impl[i], 'model': model[i] if model else None} for i in (0, len(ops) // 3, len(ops) // 2, len(ops) - 1)],
